@@ -12,6 +12,7 @@ CONSTANTS
   PairingSets = {{"p1"}}
   Supp = {"p1", "p3"}
   Addons = {FALSE, TRUE}
+  SplitReserve = FALSE
 INIT TInit
 NEXT TNext
 INVARIANTS NotDone
